@@ -170,6 +170,25 @@ FssValue(X, i, bt, t, s) ==
 FssSeries(X, bt, t) ==
   LET sc == FssScales(X) IN [i \in 1..X.n |-> Series(InputLabel(i), [k \in DOMAIN sc |-> Q(R(sc[k]))], [k \in DOMAIN sc |-> FssValue(X, i, bt, t, sc[k])])]
 
+\* impact view (two inputs): for every pair of forecast-value bins (cx - w, cx + w] x (cy - w, cy + w] the contribution
+\* sum((f1 - o)^2 - (f2 - o)^2) of the common valid cases whose forecasts fall there; a point at (cx, cy) where it is positive
+\* ("input 1 is worse") or negative ("input 2 is worse"), its area proportional to the magnitude (largest = 1)
+ImpactSeries(X, edges) ==
+  LET w == Div(Sub(edges[2], edges[1]), R(2))
+      cen == [k \in 1..(Len(edges) - 1) |-> Div(Add(edges[k], edges[k + 1]), R(2))]
+      ok == {c \in X.G : JointValid(X, 1, c) /\ JointValid(X, 2, c)}
+      inb(v, cc) == Gt(v, Sub(cc, w)) /\ Le(v, Add(cc, w))
+      contrib(a, b) == SumOver({c \in ok : inb(X.adj[1, "fcst", c], cen[a]) /\ inb(X.adj[2, "fcst", c], cen[b])},
+                               LAMBDA c : Sub(Sq(Sub(X.adj[1, "fcst", c], X.adj[1, "obs", c])), Sq(Sub(X.adj[2, "fcst", c], X.adj[1, "obs", c]))))
+      cells == (DOMAIN cen) \X (DOMAIN cen)
+      mx == LET RECURSIVE go(_) go(S) == IF S = {} THEN Zero ELSE LET q == CHOOSE y \in S : TRUE  r == go(S \ {q})  v == AbsR(contrib(q[1], q[2])) IN IF Gt(v, r) THEN v ELSE r IN go(cells)
+      pts(sign) == LET sel == {q \in cells : IF sign > 0 THEN Gt(contrib(q[1], q[2]), Zero) ELSE Lt(contrib(q[1], q[2]), Zero)}
+                       RECURSIVE seq(_) seq(S) == IF S = {} THEN <<>> ELSE LET q == CHOOSE y \in S : TRUE IN <<q>> \o seq(S \ {q})
+                   IN  seq(sel)
+      ser(i, sign) == LET p == pts(sign) IN [label |-> <<"#", i, " is worse">>, x |-> [k \in DOMAIN p |-> Q(cen[p[k][1]])], y |-> [k \in DOMAIN p |-> Q(cen[p[k][2]])],
+                                             c |-> [k \in DOMAIN p |-> Q(Div(AbsR(contrib(p[k][1], p[k][2])), mx))]]
+  IN  IF mx = Zero THEN <<>> ELSE <<ser(1, 1), ser(2, -1)>>
+
 \* every valid value falls in exactly one bin of a binned diagram whose events partition the line
 EveryValueInOneBin(v, bt, ths) ==
   (bt = "within=" /\ StrictlyIncreasing(ths)) =>
